@@ -262,8 +262,92 @@ Definition read_mup (v6 : bool) (b : list N) : option (nlri * list N) :=
   | _ => None
   end.
 
+(* ---- BGP-LS.  RFC 9552 5.2: <NLRI type (2), length (2), protocol-ID (1), identifier (8), descriptors>,
+   every descriptor a TLV <type (2), length (2), value>; 5.2.1: the node descriptors are the sub-TLVs
+   of a container TLV (256 local node, 257 remote node); a Node NLRI holds the local node
+   descriptors, a Link NLRI local + remote + link descriptors, a Prefix NLRI (types 3 / 4) local +
+   prefix descriptors; RFC 9514 6: the SRv6 SID NLRI (type 6) local + SRv6 SID Information TLVs
+   (518: multi-topology id (2), reserved (2), SID (16)).  Other NLRI types are opaque. *)
+Fixpoint read_tlv16s (fuel : nat) (b : list N) : option (list (N * list N)) :=
+  match b with
+  | [] => Some []
+  | _ =>
+    match fuel with
+    | O => None
+    | S k =>
+      match b with
+      | t1 :: t0 :: l1 :: l0 :: r =>
+          match take (l1 * 256 + l0) r with
+          | Some (v, r') =>
+              match read_tlv16s k r' with Some l => Some ((t1 * 256 + t0, v) :: l) | None => None end
+          | None => None
+          end
+      | _ => None
+      end
+    end
+  end.
+
+Fixpoint read_sids (l : list (N * list N)) : option (list (N * list N)) :=
+  match l with
+  | [] => Some []
+  | (t, v) :: r =>
+      if t =? 518 then
+        match takes [2; 2; 16] v with
+        | Some ([mt; [0; 0]; sid], []) =>
+            match read_sids r with Some s => Some ((rdn mt 0, sid) :: s) | None => None end
+        | _ => None
+        end
+      else None
+  end.
+
+Definition ls_known (ty : N) : bool := (ty =? 1) || (ty =? 2) || (ty =? 3) || (ty =? 4) || (ty =? 6).
+
+Definition read_ls (b : list N) : option (nlri * list N) :=
+  match b with
+  | t1 :: t0 :: l1 :: l0 :: r =>
+      let ty := t1 * 256 + t0 in
+      match take (l1 * 256 + l0) r with
+      | Some (body, rest) =>
+          if ls_known ty && (9 <=? blen body) then
+            match body with
+            | p :: b1 =>
+                match take 8 b1 with
+                | Some (idb, d) =>
+                    let i := rdn idb 0 in
+                    match read_tlv16s (length d) d with
+                    | Some ((256, lv) :: tl) =>
+                        match read_tlv16s (length lv) lv with
+                        | Some local =>
+                            if ty =? 1 then
+                              match tl with [] => Some (NLs (LsNode p i local), rest) | _ => None end
+                            else if ty =? 2 then
+                              match tl with
+                              | (257, rv) :: k =>
+                                  match read_tlv16s (length rv) rv with
+                                  | Some remote => Some (NLs (LsLink p i local remote k), rest)
+                                  | None => None
+                                  end
+                              | _ => None
+                              end
+                            else if ty =? 6 then
+                              match read_sids tl with Some s => Some (NLs (LsSrv6 p i local s), rest) | None => None end
+                            else Some (NLs (LsPfx (ty =? 4) p i local tl), rest)
+                        | None => None
+                        end
+                    | _ => None
+                    end
+                | None => None
+                end
+            | [] => None
+            end
+          else Some (NLs (LsOther ty body), rest)
+      | None => None
+      end
+  | _ => None
+  end.
+
 (* ---- a list of such NLRI, each preceded by its path identifier when ADD-PATH is in use *)
-Inductive skind := SFlow (v6 vpn : bool) | SRtc | SEvpn | SSrp | SMup (v6 : bool).
+Inductive skind := SFlow (v6 vpn : bool) | SRtc | SEvpn | SSrp | SMup (v6 : bool) | SLs.
 
 Definition read_struct (k : skind) : list N -> option (nlri * list N) :=
   match k with
@@ -272,6 +356,7 @@ Definition read_struct (k : skind) : list N -> option (nlri * list N) :=
   | SEvpn => read_evpn
   | SSrp => read_srp
   | SMup v6 => read_mup v6
+  | SLs => read_ls
   end.
 
 Fixpoint read_items (k : skind) (fuel : nat) (addpath : bool) (b : list N) : option (list (N * nlri)) :=
